@@ -4,7 +4,7 @@ R18.1 (BytesAI, shared with C09 R09.1) the generator emits, per logical file and
       through that logical file's own registry, record list and frame-data list.
 R18.2 (effects) inside LogicalFile the storage-unit-wide registry is used for get_or_make_set only; iterating it or
       storing through objects reached from it (other logical files' objects) is a violation.
-R18.3 (CFG, 21 sibling sites) every add_* passes the set obtained from the storage-unit-wide registry through the
+R18.3 (inlined value-flow summaries, 21 sibling sites) every add_* passes the set obtained from the storage-unit-wide registry through the
       per-logical-file registration, which refuses - on every path - a set that already belongs to another logical file,
       and records the owner when it registers.
 R18.4 (effects) one MultiFrameData per frame with its own counter (instance field reset when iteration starts); row counts
